@@ -13,6 +13,10 @@ package main
 //	c08FlushTruncates     flush commit: `db.wal.Truncate(db.sstables.LatestSeqNum)` under the lock, after the level swap
 //	c08EndSeqIsMax        writeEntry: `t.endSeqNum = max(t.endSeqNum, entry.SeqNum())` (repair D6)
 //	c08RotateKeepsMarks   wal.Writer.Rotate copies `latestSeqNum` of carried segments (repair D27)
+//	c08SaveUnderListLock  CheckpointList.Save: `cl.mu.Lock(); defer cl.mu.Unlock()` are its first statements and the
+//	                      document is collected, written (`file.Save()`) and the pending WALs destroyed in that one
+//	                      critical section (the model's `saveList` is one atomic step: overlapping saves serialise)
+//	c08RetainKeepsNewer   RetainOnly keeps `idsSet.Has(cp.ID) || cp.ID > newestRetainedID` (the model's `keeps`)
 
 import (
 	"bytes"
@@ -95,6 +99,19 @@ func c08Facts(fc *facts) {
 		addSrc = c08Src(fn)
 	}
 	fc.set("c08AfterIsLatest", c08Bool(strings.Contains(addSrc, "w.Handle(ll.LatestSeqNum)")), true, "")
+
+	sv := c08Stmts(findFunc(cl, "CheckpointList", "Save"))
+	svSrc := strings.Join(sv, " ; ")
+	iCollect, iWrite := strings.Index(svSrc, "ckpt.Document()"), strings.Index(svSrc, "file.Save()")
+	iDestroy, iClear := strings.Index(svSrc, "cp.Destroy()"), strings.Index(svSrc, "cl.checkpointsPendingRemoval = nil")
+	fc.set("c08SaveUnderListLock", c08Bool(len(sv) >= 2 && sv[0] == "cl.mu.Lock()" && sv[1] == "defer cl.mu.Unlock()" &&
+		strings.Count(svSrc, "cl.mu.") == 2 && iCollect > 0 && iCollect < iWrite && iWrite < iDestroy && iDestroy < iClear), true, "")
+	ro2 := ""
+	if fn := findFunc(cl, "CheckpointList", "RetainOnly"); fn != nil {
+		ro2 = c08Src(fn)
+	}
+	fc.set("c08RetainKeepsNewer", c08Bool(strings.Contains(ro2, "if idsSet.Has(cp.ID) || cp.ID > newestRetainedID {") &&
+		strings.Contains(ro2, "newestRetainedID = max(newestRetainedID, id)")), true, "")
 
 	tw := parseFile("dkv/sst/table_writer.go")
 	we := ""
